@@ -187,7 +187,13 @@ impl Accept {
                 Some(WakerInterest::WorkerAvailable(idx)) => {
                     drop(guard);
 
-                    self.avail.set_available(idx, true);
+                    // The notification can arrive after the handle of that worker has been
+                    // removed (the worker has stopped or died in the meantime). Marking an index
+                    // without a handle as available would make `accept_one` look for a handle that
+                    // does not exist.
+                    if self.handles.iter().any(|handle| handle.idx() == idx) {
+                        self.avail.set_available(idx, true);
+                    }
 
                     if !self.paused {
                         self.accept_all(sockets);
